@@ -1,9 +1,8 @@
 #!/usr/bin/env python3
 """Generate sodium/version.h from version.h.in + configure.ac (configure output is untracked)."""
 import re, sys
-repo = sys.argv[1]
-ac = open(repo + "/configure.ac").read()
-tpl = open(repo + "/src/libsodium/include/sodium/version.h.in").read()
+ac = open(sys.argv[1]).read()
+tpl = open(sys.argv[2]).read()
 ver = re.search(r"AC_INIT\(\[libsodium\],\[([^\]]+)\]", ac).group(1)
 maj = re.search(r"^SODIUM_LIBRARY_VERSION_MAJOR=(\d+)", ac, re.M).group(1)
 mnr = re.search(r"^SODIUM_LIBRARY_VERSION_MINOR=(\d+)", ac, re.M).group(1)
